@@ -149,11 +149,66 @@ struct Ctx<'a, M> {
     width: &'static str,
     outs: &'a dyn Fn(&M) -> Result<Vec<f64>, String>,
     eq: Option<&'a dyn Fn(&M, &M) -> bool>,
+    /// outputs are continuous functions of the stored floats with a small condition number
+    smooth: bool,
+    /// configuration class that gets its own signature ("" or e.g. "/alpha=0")
+    variant: &'static str,
 }
 
 impl<'a, M> Ctx<'a, M> {
     fn sg(&self) -> String {
-        format!("{}/{}", self.ty, self.width)
+        format!("{}/{}{}", self.ty, self.width, self.variant)
+    }
+}
+
+/// largest relative difference between the float leaves of two serialised states; structure, strings,
+/// booleans, nulls and integers must agree exactly (Err names the first place where they do not)
+fn state_diff(a: &Value, b: &Value, path: &str, worst: &mut f64) -> Result<(), String> {
+    match (a, b) {
+        (Value::Number(x), Value::Number(y)) => {
+            if x == y {
+                return Ok(());
+            }
+            if x.is_f64() && y.is_f64() {
+                let (u, v) = (x.as_f64().unwrap_or(f64::NAN), y.as_f64().unwrap_or(f64::NAN));
+                let d = (u - v).abs() / u.abs().max(v.abs());
+                if d.is_finite() {
+                    if d > *worst {
+                        *worst = d;
+                    }
+                    return Ok(());
+                }
+            }
+            Err(format!("{}: {} vs {}", path, x, y))
+        }
+        (Value::Array(x), Value::Array(y)) => {
+            if x.len() != y.len() {
+                return Err(format!("{}: array lengths {} vs {}", path, x.len(), y.len()));
+            }
+            for (i, (u, v)) in x.iter().zip(y.iter()).enumerate() {
+                state_diff(u, v, &format!("{}[{}]", path, i), worst)?;
+            }
+            Ok(())
+        }
+        (Value::Object(x), Value::Object(y)) => {
+            if x.len() != y.len() {
+                return Err(format!("{}: objects with {} vs {} fields", path, x.len(), y.len()));
+            }
+            for (k, u) in x {
+                match y.get(k) {
+                    Some(v) => state_diff(u, v, &format!("{}.{}", path, k), worst)?,
+                    None => return Err(format!("{}: field {} missing after the round trip", path, k)),
+                }
+            }
+            Ok(())
+        }
+        _ => {
+            if a == b {
+                Ok(())
+            } else {
+                Err(format!("{}: {} vs {}", path, trunc(&a.to_string(), 80), trunc(&b.to_string(), 80)))
+            }
+        }
     }
 }
 
@@ -182,7 +237,7 @@ fn check_restored<M>(c: &mut Case, cx: &Ctx<M>, fmt: &str, m: &M, r: &M, o0: &[f
             if exact {
                 c.check(&format!("{}.outputs-bit-identical", fmt), bits_eq(o0, &o1), &sg, || first_diff(o0, &o1));
             }
-            if fmt != "bincode" {
+            if fmt == "json" && !exact && cx.smooth {
                 c.ratio(&format!("{}.outputs-close", fmt), rel_diff(o0, &o1), json_tol(cx.width), &sg, || first_diff(o0, &o1));
             }
         }
@@ -237,14 +292,20 @@ fn roundtrip<M: Serialize + DeserializeOwned>(c: &mut Case, cx: &Ctx<M>, m: &M, 
         }
         Ok(s) => {
             c.check("json.serialize-ok", true, &sg, String::new);
+            let mut null_number = false;
             if let Ok(v) = serde_json::from_str::<Value>(&s) {
                 let mut bad = None;
                 find_bad_null(&v, "", &mut bad);
                 let key = bad.clone().unwrap_or_default();
-                c.check("json.no-null-number", bad.is_none(), &format!("{}/{}", cx.ty, key), || {
+                c.check("json.no-null-number", bad.is_none(), &format!("{}/{}{}", cx.ty, key, cx.variant), || {
                     format!("JSON of a model fitted on finite data has null under key '{}' (NaN/±inf state): {}", key, trunc(&s, 600))
                 });
+                null_number = bad.is_some();
             }
+            if null_number {
+                // a null in place of a number cannot be read back: consequence of the violation just recorded
+                c.bucket("json:null-number(no further JSON verdicts)");
+            } else {
             match attempt(|| serde_json::from_str::<M>(&s)) {
                 Err((e, _)) => {
                     c.check("json.deserialize-ok", false, &sg, || format!("{}; json = {}", e, trunc(&s, 600)));
@@ -259,8 +320,21 @@ fn roundtrip<M: Serialize + DeserializeOwned>(c: &mut Case, cx: &Ctx<M>, m: &M, 
                         }
                     };
                     c.bucket(if exact { "json:text-reproduced-exactly" } else { "json:decimal-rounding-observed" });
+                    // stored state equal up to the decimal rounding of its floats
+                    if let (Ok(va), Ok(vb)) = (attempt(|| serde_json::to_value(m)), attempt(|| serde_json::to_value(&r))) {
+                        let mut worst = 0.0f64;
+                        match state_diff(&va, &vb, "$", &mut worst) {
+                            Ok(()) => {
+                                c.ratio("json.state-close", worst, json_tol(cx.width), &sg, || "largest relative change of a stored float".to_string());
+                            }
+                            Err(e) => {
+                                c.check("json.state-close", false, &sg, || format!("state changed by the JSON round trip at {}", e));
+                            }
+                        }
+                    }
                     check_restored(c, cx, "json", m, &r, o0, exact);
                 }
+            }
             }
         }
     }
@@ -298,8 +372,10 @@ fn drive<M: Serialize + DeserializeOwned>(
     outs: &dyn Fn(&M) -> Result<Vec<f64>, String>,
     eq: Option<&dyn Fn(&M, &M) -> bool>,
     deterministic: bool,
+    smooth: bool,
 ) {
-    let cx = Ctx { ty, width: sc.width(), outs, eq };
+    let variant = if c.buckets.contains("nb:alpha=0") { "/alpha=0" } else { "" };
+    let cx = Ctx { ty, width: sc.width(), outs, eq, smooth, variant };
     c.bucket(&format!("type:{}", ty));
     c.bucket(&format!("width:{}", sc.width()));
     let m = match guarded_fit(fit, &sc.a) {
@@ -656,7 +732,7 @@ fn linear_t<T: Num>(c: &mut Case, sc: &Scen) {
         o.push(f(m.intercept()));
         Ok(o)
     };
-    drive(c, sc, "LinearRegression", &fit, &outs, Some(&|a, b| a == b), true);
+    drive(c, sc, "LinearRegression", &fit, &outs, Some(&|a, b| a == b), true, true);
 }
 
 fn ridge_t<T: Num>(c: &mut Case, sc: &Scen) {
@@ -676,7 +752,7 @@ fn ridge_t<T: Num>(c: &mut Case, sc: &Scen) {
         o.push(f(m.intercept()));
         Ok(o)
     };
-    drive(c, sc, "RidgeRegression", &fit, &outs, Some(&|a, b| a == b), true);
+    drive(c, sc, "RidgeRegression", &fit, &outs, Some(&|a, b| a == b), true, true);
 }
 
 fn lasso_t<T: Num>(c: &mut Case, sc: &Scen) {
@@ -694,7 +770,7 @@ fn lasso_t<T: Num>(c: &mut Case, sc: &Scen) {
         o.push(f(m.intercept()));
         Ok(o)
     };
-    drive(c, sc, "Lasso", &fit, &outs, Some(&|a, b| a == b), true);
+    drive(c, sc, "Lasso", &fit, &outs, Some(&|a, b| a == b), true, true);
 }
 
 fn enet_t<T: Num>(c: &mut Case, sc: &Scen) {
@@ -713,7 +789,7 @@ fn enet_t<T: Num>(c: &mut Case, sc: &Scen) {
         o.push(f(m.intercept()));
         Ok(o)
     };
-    drive(c, sc, "ElasticNet", &fit, &outs, Some(&|a, b| a == b), true);
+    drive(c, sc, "ElasticNet", &fit, &outs, Some(&|a, b| a == b), true, true);
 }
 
 fn logistic_t<T: Num>(c: &mut Case, sc: &Scen) {
@@ -731,7 +807,7 @@ fn logistic_t<T: Num>(c: &mut Case, sc: &Scen) {
         o.extend(from_m(m.intercept()).d);
         Ok(o)
     };
-    drive(c, sc, "LogisticRegression", &fit, &outs, Some(&|a, b| a == b), true);
+    drive(c, sc, "LogisticRegression", &fit, &outs, Some(&|a, b| a == b), true, false);
 }
 
 // ------------------------------------------------------------------------------------------------
@@ -759,7 +835,7 @@ fn knn_cls_d<T: Num, D: Distance<Vec<T>, T> + Serialize + DeserializeOwned>(c: &
         KNNClassifier::fit(&x, &y, KNNClassifierParameters::default().with_k(k).with_algorithm(al.clone()).with_weight(w).with_distance(d.clone())).map_err(es)
     };
     let outs = |m: &KNNClassifier<T, D>| Ok(fv(&m.predict(&q).map_err(es)?));
-    drive(c, sc, "KNNClassifier", &fit, &outs, Some(&|a, b| a == b), true);
+    drive(c, sc, "KNNClassifier", &fit, &outs, Some(&|a, b| a == b), true, false);
 }
 
 fn knn_reg_d<T: Num, D: Distance<Vec<T>, T> + Serialize + DeserializeOwned>(c: &mut Case, sc: &Scen, d: D, dname: &str) {
@@ -774,7 +850,7 @@ fn knn_reg_d<T: Num, D: Distance<Vec<T>, T> + Serialize + DeserializeOwned>(c: &
         KNNRegressor::fit(&x, &y, KNNRegressorParameters::default().with_k(k).with_algorithm(al.clone()).with_weight(w).with_distance(d.clone())).map_err(es)
     };
     let outs = |m: &KNNRegressor<T, D>| Ok(fv(&m.predict(&q).map_err(es)?));
-    drive(c, sc, "KNNRegressor", &fit, &outs, Some(&|a, b| a == b), true);
+    drive(c, sc, "KNNRegressor", &fit, &outs, Some(&|a, b| a == b), true, false);
 }
 
 fn knn_cls_t<T: Num>(c: &mut Case, sc: &Scen) {
@@ -817,7 +893,7 @@ fn tree_cls_t<T: Num>(c: &mut Case, sc: &Scen) {
         DecisionTreeClassifier::fit(&x, &y, p).map_err(es)
     };
     let outs = |m: &DecisionTreeClassifier<T>| Ok(fv(&m.predict(&q).map_err(es)?));
-    drive(c, sc, "DecisionTreeClassifier", &fit, &outs, Some(&|a, b| a == b), true);
+    drive(c, sc, "DecisionTreeClassifier", &fit, &outs, Some(&|a, b| a == b), true, false);
 }
 
 fn tree_reg_t<T: Num>(c: &mut Case, sc: &Scen) {
@@ -832,7 +908,7 @@ fn tree_reg_t<T: Num>(c: &mut Case, sc: &Scen) {
         DecisionTreeRegressor::fit(&x, &y, p).map_err(es)
     };
     let outs = |m: &DecisionTreeRegressor<T>| Ok(fv(&m.predict(&q).map_err(es)?));
-    drive(c, sc, "DecisionTreeRegressor", &fit, &outs, Some(&|a, b| a == b), true);
+    drive(c, sc, "DecisionTreeRegressor", &fit, &outs, Some(&|a, b| a == b), true, false);
 }
 
 fn forest_cls_t<T: Num>(c: &mut Case, sc: &Scen) {
@@ -867,7 +943,7 @@ fn forest_cls_t<T: Num>(c: &mut Case, sc: &Scen) {
         }
         Ok(o)
     };
-    drive(c, sc, "RandomForestClassifier", &fit, &outs, Some(&|a, b| a == b), true);
+    drive(c, sc, "RandomForestClassifier", &fit, &outs, Some(&|a, b| a == b), true, false);
 }
 
 fn forest_reg_t<T: Num>(c: &mut Case, sc: &Scen) {
@@ -892,7 +968,7 @@ fn forest_reg_t<T: Num>(c: &mut Case, sc: &Scen) {
         }
         Ok(o)
     };
-    drive(c, sc, "RandomForestRegressor", &fit, &outs, Some(&|a, b| a == b), true);
+    drive(c, sc, "RandomForestRegressor", &fit, &outs, Some(&|a, b| a == b), true, false);
 }
 
 // ------------------------------------------------------------------------------------------------
@@ -933,7 +1009,7 @@ fn nb_gauss_t<T: Num>(c: &mut Case, sc: &Scen) {
         GaussianNB::fit(&x, &y, p).map_err(es)
     };
     let outs = |m: &GaussianNB<T, DM<T>>| Ok(fv(&m.predict(&q).map_err(es)?));
-    drive(c, sc, "GaussianNB", &fit, &outs, Some(&|a, b| a == b), true);
+    drive(c, sc, "GaussianNB", &fit, &outs, Some(&|a, b| a == b), true, false);
 }
 
 fn nb_bern_t<T: Num>(c: &mut Case, sc: &Scen) {
@@ -948,7 +1024,7 @@ fn nb_bern_t<T: Num>(c: &mut Case, sc: &Scen) {
         BernoulliNB::fit(&x, &y, p).map_err(es)
     };
     let outs = |m: &BernoulliNB<T, DM<T>>| Ok(fv(&m.predict(&q).map_err(es)?));
-    drive(c, sc, "BernoulliNB", &fit, &outs, Some(&|a, b| a == b), true);
+    drive(c, sc, "BernoulliNB", &fit, &outs, Some(&|a, b| a == b), true, false);
 }
 
 fn nb_multi_t<T: Num>(c: &mut Case, sc: &Scen) {
@@ -962,7 +1038,7 @@ fn nb_multi_t<T: Num>(c: &mut Case, sc: &Scen) {
         MultinomialNB::fit(&x, &y, p).map_err(es)
     };
     let outs = |m: &MultinomialNB<T, DM<T>>| Ok(fv(&m.predict(&q).map_err(es)?));
-    drive(c, sc, "MultinomialNB", &fit, &outs, Some(&|a, b| a == b), true);
+    drive(c, sc, "MultinomialNB", &fit, &outs, Some(&|a, b| a == b), true, false);
 }
 
 fn nb_cat_t<T: Num>(c: &mut Case, sc: &Scen) {
@@ -974,7 +1050,7 @@ fn nb_cat_t<T: Num>(c: &mut Case, sc: &Scen) {
         CategoricalNB::fit(&x, &y, CategoricalNBParameters { alpha: t::<T>(alpha) }).map_err(es)
     };
     let outs = |m: &CategoricalNB<T, DM<T>>| Ok(fv(&m.predict(&q).map_err(es)?));
-    drive(c, sc, "CategoricalNB", &fit, &outs, Some(&|a, b| a == b), true);
+    drive(c, sc, "CategoricalNB", &fit, &outs, Some(&|a, b| a == b), true, false);
 }
 
 // ------------------------------------------------------------------------------------------------
@@ -997,7 +1073,7 @@ fn svc_k<T: Num, K: Kernel<T, Vec<T>> + Serialize + DeserializeOwned + Clone>(c:
         Ok(o)
     };
     // the SVC trainer visits the rows in a random order: no refit clause
-    drive(c, sc, "SVC", &fit, &outs, Some(&|a, b| a == b), false);
+    drive(c, sc, "SVC", &fit, &outs, Some(&|a, b| a == b), false, false);
 }
 
 fn svr_k<T: Num, K: Kernel<T, Vec<T>> + Serialize + DeserializeOwned + Clone>(c: &mut Case, sc: &Scen, kernel: K, kname: &'static str, kj: Value) {
@@ -1012,7 +1088,7 @@ fn svr_k<T: Num, K: Kernel<T, Vec<T>> + Serialize + DeserializeOwned + Clone>(c:
         SVR::fit(&x, &y, p).map_err(es)
     };
     let outs = |m: &SVR<T, DM<T>, K>| Ok(fv(&m.predict(&q).map_err(es)?));
-    drive(c, sc, "SVR", &fit, &outs, Some(&|a, b| a == b), true);
+    drive(c, sc, "SVR", &fit, &outs, Some(&|a, b| a == b), true, false);
 }
 
 macro_rules! per_kernel {
@@ -1055,7 +1131,7 @@ fn kmeans_t<T: Num>(c: &mut Case, sc: &Scen) {
     };
     let outs = |m: &KMeans<T>| Ok(fv(&m.predict(&q).map_err(es)?));
     // random initialisation: no refit clause
-    drive(c, sc, "KMeans", &fit, &outs, Some(&|a, b| a == b), false);
+    drive(c, sc, "KMeans", &fit, &outs, Some(&|a, b| a == b), false, false);
 }
 
 fn dbscan_d<T: Num, D: Distance<Vec<T>, T> + Serialize + DeserializeOwned>(c: &mut Case, sc: &Scen, d: D, dname: &str) {
@@ -1069,7 +1145,7 @@ fn dbscan_d<T: Num, D: Distance<Vec<T>, T> + Serialize + DeserializeOwned>(c: &m
         DBSCAN::fit(&x, DBSCANParameters::default().with_eps(t::<T>(eps)).with_min_samples(ms).with_algorithm(al.clone()).with_distance(d.clone())).map_err(es)
     };
     let outs = |m: &DBSCAN<T, D>| Ok(fv(&m.predict(&q).map_err(es)?));
-    drive(c, sc, "DBSCAN", &fit, &outs, Some(&|a, b| a == b), true);
+    drive(c, sc, "DBSCAN", &fit, &outs, Some(&|a, b| a == b), true, false);
 }
 
 fn dbscan_t<T: Num>(c: &mut Case, sc: &Scen) {
@@ -1098,7 +1174,7 @@ fn pca_t<T: Num>(c: &mut Case, sc: &Scen) {
         o.extend(from_m(m.components()).d);
         Ok(o)
     };
-    drive(c, sc, "PCA", &fit, &outs, Some(&|a, b| a == b), true);
+    drive(c, sc, "PCA", &fit, &outs, Some(&|a, b| a == b), true, true);
 }
 
 fn tsvd_t<T: Num>(c: &mut Case, sc: &Scen) {
@@ -1114,7 +1190,7 @@ fn tsvd_t<T: Num>(c: &mut Case, sc: &Scen) {
         o.extend(from_m(m.components()).d);
         Ok(o)
     };
-    drive(c, sc, "SVD", &fit, &outs, Some(&|a, b| a == b), true);
+    drive(c, sc, "SVD", &fit, &outs, Some(&|a, b| a == b), true, true);
 }
 
 // ------------------------------------------------------------------------------------------------
@@ -1146,7 +1222,7 @@ fn cover_d<T: Num, D: Distance<Vec<T>, T> + Serialize + DeserializeOwned>(c: &mu
         }
         Ok(o)
     };
-    drive(c, sc, "CoverTree", &fit, &outs, Some(&|a, b| a == b), true);
+    drive(c, sc, "CoverTree", &fit, &outs, Some(&|a, b| a == b), true, false);
 }
 
 fn linear_d<T: Num, D: Distance<Vec<T>, T> + Serialize + DeserializeOwned>(c: &mut Case, sc: &Scen, mk: &dyn Fn(&Ds) -> D, dname: &str) {
@@ -1165,7 +1241,7 @@ fn linear_d<T: Num, D: Distance<Vec<T>, T> + Serialize + DeserializeOwned>(c: &m
         Ok(o)
     };
     // LinearKNNSearch has no PartialEq: the equality clauses cannot be observed
-    drive(c, sc, "LinearKNNSearch", &fit, &outs, None, true);
+    drive(c, sc, "LinearKNNSearch", &fit, &outs, None, true, false);
 }
 
 fn cover_t<T: Num>(c: &mut Case, sc: &Scen) {
@@ -1204,7 +1280,7 @@ fn dist_d<T: Num, D: Distance<Vec<T>, T> + Serialize + DeserializeOwned>(c: &mut
     let q = rows_t::<T>(&sc.q);
     let fit = |ds: &Ds| Ok(mk(ds));
     let outs = |m: &D| Ok(pair_outs(&q, |a, b| m.distance(a, b)));
-    drive(c, sc, ty, &fit, &outs, None, true);
+    drive(c, sc, ty, &fit, &outs, None, true, false);
 }
 
 fn distances_t<T: Num>(c: &mut Case, sc: &Scen) {
@@ -1235,7 +1311,7 @@ fn kern_k<T: Num, K: Kernel<T, Vec<T>> + Serialize + DeserializeOwned + Clone>(c
     let q = rows_t::<T>(&sc.q);
     let fit = |_: &Ds| Ok(k.clone());
     let outs = |m: &K| Ok(pair_outs(&q, |a, b| m.apply(a, b)));
-    drive(c, sc, ty, &fit, &outs, None, true);
+    drive(c, sc, ty, &fit, &outs, None, true, false);
 }
 
 fn kernels_t<T: Num>(c: &mut Case, sc: &Scen) {
@@ -1264,7 +1340,7 @@ fn kernels_t<T: Num>(c: &mut Case, sc: &Scen) {
 // ------------------------------------------------------------------------------------------------
 fn params_one<P: Serialize + DeserializeOwned>(c: &mut Case, width: &'static str, ty: &'static str, p: P) {
     let outs = |_: &P| Ok(Vec::new());
-    let cx = Ctx { ty, width, outs: &outs, eq: None };
+    let cx = Ctx { ty, width, outs: &outs, eq: None, smooth: false, variant: "" };
     c.bucket(&format!("type:{}", ty));
     roundtrip(c, &cx, &p, &[]);
 }
